@@ -62,6 +62,8 @@ static struct fault faults[MAX_FAULTS];
 static int nfaults = 0;
 static int perm_readdir = 0;
 static long sim_clock_base = 1790000000L; /* $SIM_CLOCK_BASE: where the simulated wall clock starts (seconds) */
+static long jitter_us = 0;         /* $SIM_JITTER_US: every operation is preceded by a pause of 0..jitter_us microseconds derived
+                                      from its number - threads of the process under test drift against each other */
 static int dtype_unknown = 0;      /* $SIM_DT_UNKNOWN: readdir reports d_type DT_UNKNOWN, as some file systems do */
 static char mount_pre[512];        /* "mount <rel>": that directory of the world is the root of another file system */
 static size_t mount_len = 0;
@@ -341,6 +343,8 @@ static void do_init(void)
     const char *plan = getenv("SIM_PLAN");
     if (!root || !trace)
         return;
+    if (getenv("SIM_JITTER_US"))
+        jitter_us = atol(getenv("SIM_JITTER_US"));
     if (getenv("SIM_DT_UNKNOWN"))
         dtype_unknown = atoi(getenv("SIM_DT_UNKNOWN"));
     if (getenv("SIM_CLOCK_BASE"))
@@ -515,6 +519,12 @@ static void die_now(void)
 /* take the lock, number the op, run "before" actions */
 static void op_begin(struct opctx *c, const char *kind, const char *path)
 {
+    if (jitter_us > 0) {
+        uint64_t h = ((uint64_t)(opk + 1) * 0x9E3779B97F4A7C15ULL) ^ rng_state;
+        h ^= h >> 29;
+        struct timespec ts = {0, (long)(h % (uint64_t)jitter_us) * 1000L};
+        nanosleep(&ts, NULL);
+    }
     if (pthread_mutex_trylock(&mu) != 0) {
         pthread_mutex_lock(&mu);
         tracef("-\tCONTENDED\t%s\t0\t0\t0\t0\t-\n", path);
